@@ -238,6 +238,18 @@ def _rest(ck, fa, R3, R4, R5, R6):
     ok = "call:uuid4" in deps and "call:_get_path_versioned" in deps
     ck.ob(R5, fo.key(wopen, "fresh-version"), ok, "the object is written under a uuid4() version directory" if ok else
           "the written object path does not contain a fresh uuid4(): an existing version can be overwritten", fo.where(wopen))
+    # ... and exactly AT the versioned path (no staging name derived from the key alone, which two
+    # writers of the same key would share)
+    recv = A.call_recv(wopen) if A.call_recv(wopen) is not None else (wopen.args[0] if wopen.args else None)
+    exact = False
+    if isinstance(recv, ast.Call) and A.call_attr(recv) == "str" and recv.args:
+        recv = recv.args[0]
+    if isinstance(recv, ast.Name):
+        ds = [d for i in fo.nodes(wopen) for d in fo.df.reaching(i, recv.id)]
+        exact = bool(ds) and all(isinstance(d.value, ast.Call) and A.call_attr(d.value) == "_get_path_versioned" and len(d.value.args) == 1 and not d.value.keywords for d in ds)
+    ck.ob(R5, fo.key(wopen, "written-at-versioned-path"), exact, "bytes are written directly at the fresh versioned path" if exact else
+          "the object's bytes are first written to `%s`, a name that is not the fresh versioned path: two writers of the same key share that "
+          "file, so one version can end up holding the other's bytes" % A.short(recv, 60), fo.where(wopen))
     gp = FA(ck, FSDS + "._get_path_versioned")
     okv = all("attr:key.version" in gp.deps(r.value) for r in gp.returns()) and len(gp.returns()) >= 1
     ck.ob(R5, gp.key(None, "version-in-path"), okv, "every versioned path contains key.version" if okv else
@@ -261,6 +273,10 @@ def _rest(ck, fa, R3, R4, R5, R6):
     ck.ob(R5, om.key(pc, "side-car"), okm, "metadata is written to a side-car path, never the object path" if okm else
           "output_metadata writes to the object path itself", om.where(pc))
 
+    # the memento's content key survives the metadata codec (split at the last '#')
+    from .c11 import check_versioned_key_codec
+    ck.rule("C07.R8", "a memento's versioned content key is written as key#version and split at the last '#'", 2)
+    check_versioned_key_codec(ck, "C07.R8")
     # ---- R6
     mz = FA(ck, "storage_base.StorageBackendBase.memoize")
     asgs = [s for s in mz.stmts(ast.Assign) if any(A.dotted(t) == "memento.content_key" for t in s.targets)]
